@@ -98,6 +98,7 @@ def exec_cases():
           # numbers that are not plain decimals (C09: rejected, never truncated or routed through floating point)
           '1e5', '1E5', '10e-3', '2e+3', '1.5E6', '1e', '1e+', '1.5e-4294967295', '0.25E-4294967294', '3 + 1.5e-4294967295 * 2', '1e28', '1e-28', '123456789012345678e1 == 1234567890123456780',
           '1.2.3', '1..2', 'x = 1.2.3; x', '1.2.3 + 1', '12abc', '1_000', '1.', '.5', '1.e1', '79228162514264337593543950336', '79228162514264337593543950335', '7922816251426433759354395033.5', '0.0000000000000000000000000001', '1.0000000000000000000000000000',
+          '9007199254740993 == 9007199254740992', '0.1 + 0.2 == 0.30000000000000004', '1.000000000000000000000000001 == 1', '0.30000000000000001 != 0.3', '9007199254740993 in [9007199254740992]', "'1' == 1", "1 == '1'", "'1.0' in [1]", '1.0 == 1', '[1.0] == [1]',
           'boomT()', 'boomP()', 'boomT', 'sum(1, boomT())', 'min(boomP(), 1)', '[boomT(), one()]', 'x = boomP(); x', 'boomT() ? 1 : 2', 'max(1, 2) + boomP()',
           'boom', 'cnt(boom, two())', 'id(boom)', '[one, boom, two()]', '{one: boom}', 'boom + one()', 'one() + boom', 'true ? boom : 1', 'false ? boom : two()', 'boom ? 1 : 2', 'x = 1; y = boom; z = two(); 4', 'x = boom', '-boom', 'boom++', 'cnt(one, two, t)', 't ? one : two',
           'x = 1', 'x = 1; x', 'x = 1; y = x + 1; y', 'x = 1; x += 2; x', 'x = 6; x -= 1; x *= 3; x %= 4; x', 'x = 8; x /= 2; x', 'x = 6; x &= 3; x |= 8; x ^= 1; x', 'x = y = 3', 'x = 1; x = true; x', 'x += 1', 'x = 1; x += true', 'x = 1; x += true; x',
@@ -178,6 +179,20 @@ SCRIPTS = [
         ('exec', 'boom()', {}), ('exec', 'boomT()', {}), ('exec', 'boomP(1)', {}), ('exec', 'x = [boomT(one()), one()]; y = one(); y', {}), ('exec', 'boomP', {}), ('exec', 'one() + boomT()', {})],
        expect=[None, None, None, ('err',), ('err',), ('err',), ('err',), ('err',), ('err',)]),
   dict(name='global_function_after_context_miss', steps=[('reg_fn', 'gg', dict(tag='global')), ('exec', 'gg(one())', {}), ('exec', 'gg(boom())', {})], expect=[None, ('val', 'String("global")'), ('err',)]),
+  # a built-in that the user did not touch keeps its own meaning when a *related* built-in is overridden
+  dict(name='compound_assignment_keeps_builtin_meaning', steps=[('reg_infix', '+', dict(tag='plus', p='110', assoc='L')), ('reg_infix', '/', dict(tag='div', p='120', assoc='L')), ('reg_infix', '%', dict(tag='rem', p='120', assoc='L')),
+        ('exec', 'a = 1; a += 2; a', {}), ('exec', 'a = 7; a /= 0; a', {}), ('exec', 'a = 7.5; a %= 2; a', {}), ('exec', "a = 'x'; a += 1; a", {}), ('exec', 'a = 79228162514264337593543950335; a += 1; a', {}), ('exec', 'a = 1.10; a *= 1.5; a', {})],
+       expect=[None, None, None, ('val', 'Number(3)', ['C03', 'C04', 'C06', 'C09']), ('err',), ('val', 'Number(1.5)', ['C03', 'C04', 'C06', 'C09']), ('err',), ('err',), ('val', 'Number(1.650)', ['C03', 'C06', 'C09'])]),
+  dict(name='negative_precedence_registration_does_not_loosen_the_grammar', steps=[('reg_infix', '|>', dict(tag='pipe', p='-3', assoc='L')), ('parse', 'a : b', {}), ('parse', '[1 ! 2]', {}), ('parse', '1 ++ ++ 2', {}), ('parse', 'f(1 : 2)', {})],
+       expect=[None, ('reject',), ('reject',), ('reject',), ('reject',)]),
+  dict(name='right_associative_calc_operator_evaluates_left_to_right', steps=[('reg_infix', 'rsub', dict(tag='rsub', p='110', assoc='R')), ('exec', 'one() rsub two()', {}), ('exec', 'one() rsub boom() rsub two() rsub t()', {}), ('exec', 'one() rsub two() rsub t()', {})],
+       expect=[None, ('trace', 'one();two()'), ('trace', 'one();boom()'), ('trace', 'one();two();t()')]),
+  dict(name='describe_by_node_kind_not_by_spelling', steps=[('reg_postfix', '!', dict(tag='fact')), ('reg_prefix', '++', dict(tag='inc')), ('describe', '!b', {}), ('describe', '!n!', {}), ('describe', '++a', {}), ('describe', 'a++', {}), ('describe', '- x --', {})],
+       expect=[None, None, ('describe', '!b'), ('describe', '!n!'), ('describe', '++a'), ('describe', 'a++'), ('describe', '-x--')]),
+  dict(name='printer_and_parser_share_the_current_table', steps=[('rtreg', 'a * (b + c)', dict(op='+', tag='plus', p='130', assoc='L')), ('rtreg', 'a - (b - c)', dict(op='-', tag='minus', p='110', assoc='R')),
+        ('reg_infix', '**', dict(tag='pow', p='120', assoc='R')), ('parse', '(a ** b) * c', {}), ('parse', 'a ** b ** c * d', {}), ('parse', '(a * b) ** c', {}),
+        ('reg_infix', 'rminus', dict(tag='rm', p='100', assoc='R')), ('parse', '(a rminus b) << c', {}), ('parse', 'a << (b rminus c)', {})],
+       expect=[('roundtrip',), ('roundtrip',), None, ('roundtrip',), ('roundtrip',), ('roundtrip',), None, ('roundtrip',), ('roundtrip',)]),
   dict(name='postfix_registered_after_use', steps=[('parse', '5!!', {}), ('reg_postfix', '!!', dict(tag='ff')), ('parse', '5!!', {})], expect=[('reject',), None, ('ast', 'Postfix(Literal(Number(5)), "!!")')]),
   dict(name='word_postfix_registered_after_use', steps=[('parse', '3 squared', {}), ('reg_postfix', 'squared', dict(tag='sq')), ('parse', '3 squared', {})],
        expect=[('ast', 'Stmt([Literal(Number(3)), Reference("squared")])'), None, ('ast', 'Postfix(Literal(Number(3)), "squared")')]),
